@@ -62,6 +62,14 @@ def definitions():
                 if not eq([w[j]], [(w[j - 1] * (p - 1) + close[j]) / p]):
                     return f'wilders(period={p})[{j}] violates the Wilder recurrence'
             r = ta.rsi(c, p, sequential=True)
+            # Wilder's definition, also on tiny prices and on a strictly rising series (adversarial inputs of the statement)
+            for scale, series_ in ((1.0, close), (1e-8, close), (1e6, close), (1e-8, [1.0 + 0.01 * j for j in range(len(close))])):
+                xs = [v * scale for v in series_]
+                got = ta.rsi(np.array(xs), p, sequential=True)
+                want = K.rsi_wilder(xs, p)
+                if not indic.close_enough(np.asarray(got, dtype=float), np.asarray(want, dtype=float), 1e-6):
+                    j = next(i for i in range(len(want)) if not indic.close_enough(np.asarray(got[i:i + 1], dtype=float), np.asarray([want[i]], dtype=float), 1e-6))
+                    return f'rsi(period={p})[{j}] = {got[j]} on prices scaled by {scale} but Wilder\'s definition gives {want[j]}'
             rr = r[~np.isnan(r)]
             if len(rr) and (rr.min() < -1e-9 or rr.max() > 100 + 1e-9):
                 return f'rsi(period={p}) leaves [0, 100]: {rr.min()} .. {rr.max()}'
